@@ -227,4 +227,22 @@ CHECKS = {
              "tokens).  Known findings: split_parts drift after ';;', "
              "KeyError / LookupError for undeclared prefixes / unknown "
              "expression types."),
+    "C18": dict(
+        technique="alignment analysis of positionally paired collections "
+                  "(parameter effects of every callee between origin and "
+                  "zip); guarded-lookup rule; pop/discard balance over all "
+                  "paths of the end-tag handler; constant tables",
+        text="Decides that the static attribute list and the namespaced "
+             "mapping, which are paired by position to compute the "
+             "attributes to drop, stay aligned from their common origin to "
+             "the zip (every callee removes from both or from neither); that "
+             "prefix lookups keyed by template text are guarded and only the "
+             "four language namespaces are converted from data-* attributes, "
+             "under the option; that an end tag removes exactly one "
+             "namespace map per start-tag entry it discards on every path; "
+             "that the drop set, the element-omission tests, the whitelist "
+             "validation and the xmlns-declaration drop agree with the four "
+             "language namespaces.",
+        note="Equality of outputs across prefix spellings is not computed; "
+             "duplicate attribute names in one tag are assumed absent."),
 }
